@@ -285,6 +285,7 @@ def project_coverage(prop, tier, stats, nruns, other, samples, pstats, wall, kno
         "prestate_cells": stats.get("prestate_cells", {}),
         "probes": {k: stats.get(k, 0) for k in ("r3_checked", "r4_checked", "a2_checked", "c11_checked", "sp_checked", "twin_checks", "gen_ops",
                                                 "stray_after_kill_tolerated", "stdout_lines_unrecognised", "a3_checked", "a3_skipped_lossy_in_memory")},
+        "a3_interface_checks": stats.get("a3", {}),
         "ended_by_other_property": other,
         "known_findings_hit": {fid: n for fid, (_k, n) in known_hit.items()},
         "workers": pstats.get("workers"),
